@@ -69,7 +69,7 @@ class GlueEngine:
         big = max(big, 72)
         for lp in core.show_loops(gb):
             fn = lp.rsplit(".", 1)[0]
-            names = ("harness", "glue_fill", "split_text", "check_layout", "expected", "vf_copy", "os_fill", "copy_shadow", "frame")
+            names = ("harness", "glue_fill", "split_text", "check_layout", "expected", "vf_copy", "os_fill", "copy_shadow", "frame", "rec_check", "any_line", "stub_line_to_instr")
             if any(fn == x or fn.endswith("_c_" + x) for x in names) and lp not in uw:
                 uw[lp] = big
         t0 = time.time()
